@@ -12,7 +12,7 @@ import (
 func (e *Engine) newFnCtx(fn *ssa.Function, c *Contract) *FnCtx {
 	fc := &FnCtx{eng: e, fn: fn, contract: c, declSet: map[string]bool{}, varSort: map[string]string{}, nameCnt: map[string]int{},
 		assumptions: map[string]bool{}, trusted: map[string]bool{}, closures: map[string]*ssa.MakeClosure{}, boxed: map[string]Val{},
-		iters: map[string]*ssa.Range{}, knownLen: map[string]int64{}, pendingAxioms: map[string]*Axiom{}}
+		iters: map[string]*ssa.Range{}, knownLen: map[string]int64{}, knownBig: map[string]string{}, nonlinear: c.Nonlinear, pendingAxioms: map[string]*Axiom{}}
 	fc.regVar(hAlloc, "Int")
 	fc.regVar(hBV, arrSort("Int"))
 	fc.init = &State{vars: map[string]string{}}
